@@ -84,7 +84,7 @@ pub fn diff_case(
                 r.nontrivial = Some(format!("{}|{}", q.skeleton(), layout_name));
             }
             if let Err(why) = judge(&a.rows, &ref_ans.rows, q) {
-                // confirm + shrink
+                // confirm on a rebuilt context of the same layout, then shrink
                 let fails = |d: &[Table]| -> bool {
                     let c = rebuild(d);
                     let dc = df_ctx(d);
@@ -93,17 +93,49 @@ pub fn diff_case(
                         _ => false,
                     }
                 };
-                let small = if db.iter().map(|t| t.rows.len()).sum::<usize>() <= 3000 { shrink_rows(db, fails, std::time::Duration::from_secs(20)) } else { db.to_vec() };
-                let c2 = rebuild(&small);
-                let d2 = df_ctx(&small);
-                let out2 = run_sql(&c2, &q.engine_sql());
-                let ref2 = run_df(&d2, &q.ref_full_sql());
+                let reproducible = fails(db);
+                let small = if reproducible && db.iter().map(|t| t.rows.len()).sum::<usize>() <= 3000 { shrink_rows(db, fails, std::time::Duration::from_secs(20)) } else { db.to_vec() };
+                let (out2, ref2) = if reproducible {
+                    (run_sql(&rebuild(&small), &q.engine_sql()), run_df(&df_ctx(&small), &q.ref_full_sql()))
+                } else {
+                    // not reproducible on a rebuilt context (schedule- or cache-dependent):
+                    // the recorded first observation is the witness
+                    (out.clone(), reference.clone())
+                };
                 let why2 = match (&out2, &ref2) {
                     (Outcome::Ok(a2), Ok(r2)) => judge(&a2.rows, &r2.rows, q).err().unwrap_or(why.clone()),
                     _ => why.clone(),
                 };
-                let sig = classify(q, &small, &why2);
-                r.fail = Some((sig, format!("{} :: {}", q.engine_sql(), why2), replay_json(&small, q, &out2, &ref2, json!({"layout": layout_name, "tags": q.tags}))));
+                // --- arbitration: DataFusion is not infallible. SQLite decides
+                // whether the disagreement is the engine's or the reference's.
+                let arb = crate::arbiter::run_sqlite(&small, &q.ref_full_sql());
+                let verdict = match (&arb, &out2, &ref2) {
+                    (Ok(s), Outcome::Ok(a2), Ok(r2)) => {
+                        if judge(&a2.rows, s, q).is_ok() {
+                            "reference-disagreement"
+                        } else if crate::canon::multiset_eq(&r2.rows, s).is_ok() {
+                            "violated"
+                        } else {
+                            "unarbitrated"
+                        }
+                    }
+                    (Err(_), _, _) => "unarbitrated",
+                    _ => "unarbitrated",
+                };
+                match verdict {
+                    "reference-disagreement" => {
+                        r.inconclusive = Some("reference-disagreement(sqlite sides with the engine)".into());
+                        r.counts.push((format!("ref_disagreement: {}", q.engine_sql().chars().take(150).collect::<String>()), 1));
+                    }
+                    "unarbitrated" => {
+                        r.inconclusive = Some("unarbitrated-disagreement".into());
+                        r.counts.push((format!("unarbitrated: {} [{}]", q.engine_sql().chars().take(150).collect::<String>(), arb.as_ref().err().cloned().unwrap_or_else(|| "sqlite differs from both".into()).chars().take(60).collect::<String>()), 1));
+                    }
+                    _ => {
+                        let sig = classify(q, &small, &why2);
+                        r.fail = Some((sig, format!("{} :: {}", q.engine_sql(), why2), replay_json(&small, q, &out2, &ref2, json!({"layout": layout_name, "tags": q.tags, "sqlite": arb.as_ref().map(|s| crate::canon::rows_json(s, 40)).unwrap_or(json!("n/a"))}))));
+                    }
+                }
             }
         }
     }
@@ -151,7 +183,14 @@ pub fn run(tier: Tier, seed: u64) -> i32 {
         for qi in 0..per_db {
             let mut qrng = rng.fork(qi as u64);
             let q = crate::checks::shapes::mixed_query(&mut qrng, &db, Feats::all());
-            let rebuild = |d: &[Table]| crate::eng::mem_ctx(d);
+            let rdir = dir.join(format!("rebuild{}", qi));
+            let lseed = s ^ 0x5EED;
+            let rebuild = |d: &[Table]| {
+                let _ = std::fs::remove_dir_all(&rdir);
+                std::fs::create_dir_all(&rdir).unwrap();
+                // same layout kind, layout parameters re-drawn from a fixed seed
+                engine_ctx(d, layout, &mut Rng::new(lseed), Some(&rdir))
+            };
             let mut r = diff_case(&db, &ctx, &dfc, &q, lname, &crate::checks::shapes::classify, &rebuild);
             if qi == 0 && s % 16 == 0 {
                 r.sample = Some(json!({"engine_sql": q.engine_sql(), "layout": lname, "table_rows": db.iter().map(|t| t.rows.len()).collect::<Vec<_>>()}));
